@@ -18,7 +18,7 @@ Event tuples (first field = kind, second = clock):
  shift     (k, t, nid)
  slot      (k, t, nid, slot size, number in service (engine))
  attach    (k, t, nid, cid, server id, prio, arrival date, interrupted?, waiting [(cid, prio, arr, interrupted)],
-            in service [(cid, prio)], server off duty?, server in node.servers?, n interrupted, order in prio list, already had server?, ctx)
+            in service [(cid, prio)], server off duty?, server in node.servers?, n interrupted, order in prio list, already had server?, ctx, customer blocked?)
  detach    (k, t, nid, cid, server id, server off duty?, ctx)
  exit      (k, t, cid, completed?)
  arrival   (k, t, node, class, scheduled date, created before, created after)
@@ -262,7 +262,7 @@ def instrument(Q, tr):
                 order = {w.id_number: k for k, w in enumerate(nd.individuals[ind.priority_class])} if ind.priority_class < len(nd.individuals) else {}
                 ev.append(('attach', Q.current_time, nid, ind.id_number, server.id_number, ind.priority_class, ind.arrival_date,
                            ind in nd.interrupted_individuals, waiting, inserv, server.offduty, server in nd.servers,
-                           nd.number_interrupted_individuals, order, bool(ind.server), ctx[-1] if ctx else None))
+                           nd.number_interrupted_individuals, order, bool(ind.server), ctx[-1] if ctx else None, ind.is_blocked))
                 return orig(server, ind, *a, **k)
             wrap(nd, 'attach_server', attach)
 
